@@ -2004,6 +2004,11 @@ class EntityInst(Instance):
 
         entity_name = self._entity._name
         arch_name = self._entity._arch_name
+
+        if not self._entity.extern():
+            # the name of the architecture might be changed to avoid collisions
+            arch_name = self._entity.architecture().arch_name()
+
         arch_spec = "" if arch_name is None else f"({arch_name})"
         path = self._entity._path
 
